@@ -225,3 +225,7 @@ mod tests {
         }
     ];
 }
+
+#[cfg(kani)]
+#[path = "/verif/kani/std_ip_subnet.rs"]
+mod kani_verif;
